@@ -456,23 +456,23 @@ PROPS["C11"] = Prop(
 _pae = [H("core_units", "pae::" + n, t, timeout=to, mem=14, doc=d) for n, t, to, d in [
     ("pae_n0", "qt", 300, "N=0"),
     ("pae_n1_frag0123", "qt", 900, "N=1, 0..3 fragments of symbolic length 0..600"),
-    ("pae_n2", "t", 1500, "N=2, fragment lengths symbolic 0..600"),
+    ("pae_n2", "qt", 1500, "N=2, fragment lengths symbolic 0..600"),
     ("pae_n3_header3", "t", 1500, "N=3 (v2 local / v1,v2 public shape): header in three fragments"),
     ("pae_n4_public", "t", 1800, "N=4 (v4 public shape)"),
     ("pae_n5_local", "t", 1800, "N=5 (v3/v4 local shape), symbolic lengths up to 600"),
     ("pae_n5_v3public", "t", 1800, "N=5 (v3 public shape, key first)"),
-    ("pae_n8", "t", 1800, "N=8 with multi-fragment pieces"),
-    ("pae_n5_local_small", "qt", 900, "N=5 local shape, fragment lengths 0..2 (quick variant)"),
-    ("pae_n4_public_small", "qt", 900, "N=4 public shape, fragment lengths 0..2 (quick variant)"),
-    ("pae_vec_bytes", "t", 2400, "Vec<u8> writer receives exactly the spec's bytes (2 pieces, 3+1 fragments, symbolic contents)"),
-    ("pae_boundary_shift", "t", 1800, "the same 3 bytes split differently between message|footer|assertion always encode differently")]]
+    ("pae_n5_local_small", "t", 1500, "N=5 local shape, fragment lengths 0..2 (quick variant)"),
+    ("pae_n4_public_small", "t", 1500, "N=4 public shape, fragment lengths 0..2 (quick variant)"),
+    # not registered (kept in pae.rs): pae_n8 (OOM at 14 GB), pae_vec_bytes (40 min timeout: the Vec writer's realloc chain),
+    # pae_boundary_shift (30 min timeout) -- byte-level framing rests on the call-recording writer harnesses above
+    ]]
 PROPS["C15"] = Prop(
     "C15", _pae,
-    explanation="The real pre_auth_encode<N> is executed with a writer that records every write as (pointer, length, 8-byte head); the harness walks that log against the spec: LE64(N), then per piece LE64(total length) followed by its fragments, by pointer identity and length — so contents are arbitrary and fragment lengths symbolic up to 600. The Vec<u8> writer is compared byte-for-byte at small sizes, and boundary-shifted splits of the same bytes are shown to encode differently.",
-    functions=["paseto_core::pae::pre_auth_encode", "paseto_core::encodings::{WriteBytes for Vec<u8>, WriteBytes for &mut W}"],
-    bounds={"quick": "N in {0,1,4,5}; fragments per piece 0..3; lengths 0..600 for N=1, 0..2 for N=4,5; Vec bytes at one 3-piece shape",
-            "thorough": "N in {0,1,2,3,4,5,8}; fragment lengths symbolic 0..600; boundary shifts of 3 bytes"},
-    outside=["N in {6,7}", "the digest/MAC adapters of each backend (one-line forwards to update(), exercised in the L2 harnesses through the hash models' transcripts)"],
+    explanation="The real pre_auth_encode<N> is executed with a writer that records every write as (pointer, length, 8-byte head); the harness walks that log against the spec: LE64(N), then per piece LE64(total length) followed by its fragments, by pointer identity and length — so contents are arbitrary and fragment lengths symbolic up to 600. Injectivity of the framing follows from the length prefixes being exactly the spec's; the byte-level Vec writer and boundary-shift harnesses exist in pae.rs but do not finish within 40 minutes and are not registered.",
+    functions=["paseto_core::pae::pre_auth_encode"],
+    bounds={"quick": "N in {0,1,2}; fragments per piece 0..3; fragment lengths symbolic 0..600",
+            "thorough": "N in {0,1,2,3,4,5} in the shapes the backends use (header in three fragments, v3 public key-first shape); fragment lengths symbolic 0..600"},
+    outside=["N >= 6 (no backend uses more than 5 pieces)", "the Vec<u8> WriteBytes impl byte for byte (extend_from_slice)", "the digest/MAC adapters of each backend (one-line forwards to update(), exercised in the L2 harnesses through the hash models' transcripts)"],
     models=["none"], assumptions=["pointer identity + equal length of a written fragment implies identical bytes"])
 
 PROPS["C05"] = Prop(
